@@ -321,6 +321,9 @@ class CallMixin:
             fac = {"list": list, "set": set, "dict": dict, "int": int}.get(args[0].name) if args and isinstance(args[0], BuiltinRef) else None
             if fac is not None or not args:
                 return defaultdict(fac)
+            if isinstance(args[0], (Closure, FuncRef, ClassRef, Partial)):
+                # a lambda / function / class as factory: evaluated by the interpreter when a missing key is read
+                return defaultdict(lambda _f=args[0]: self.call_value(_f, None, [], {}, node, fr))
         if isinstance(fv, Closure):
             return self.call_function(fv.fi, args, kwargs, node, fr, closure=fv.frame)
         if isinstance(fv, FuncRef):
@@ -617,7 +620,15 @@ class CallMixin:
                     vals = [self.truth(x, node, fr) for x in argv[0]]
                     return any(vals) if name == "any" else all(vals)
                 if name in ("sorted", "min", "max") and "key" in kwargs:
-                    return sym()
+                    ks = self._keyed(list(argv[0]) if argv else [], kwargs["key"], node, fr)
+                    if ks is None:
+                        return sym()
+                    rev = bool(kwargs.get("reverse", False))
+                    order = sorted(range(len(ks)), key=lambda i_: ks[i_][0], reverse=rev) if name == "sorted" else None
+                    if name == "sorted":
+                        return [ks[i_][1] for i_ in order]
+                    pick = (min if name == "min" else max)(range(len(ks)), key=lambda i_: ks[i_][0])
+                    return ks[pick][1]
                 if name in ("sorted", "min", "max", "sum") and argv and contains_term(argv[0]):
                     return sym()
                 r = SAFE_BUILTINS[name](*argv, **kwargs)
@@ -649,6 +660,26 @@ class CallMixin:
         if name == "super":
             return Opaque("super()")
         return sym()
+
+    def _keyed(self, items, keyf, node, fr):
+        """[(key value, item)] with the key callable evaluated by the interpreter; None if some key is not a concrete orderable value"""
+        out = []
+        for x in items:
+            try:
+                kv = self.call_value(keyf, None, [x], {}, node, fr)
+            except Exception as e:  # signals of the interpreter must propagate
+                from .interp import _Signal
+                if isinstance(e, _Signal):
+                    raise
+                return None
+            if contains_term(kv) or not isinstance(kv, (int, float, str, tuple, bool)):
+                return None
+            out.append((kv, x))
+        try:
+            sorted(k for k, _ in out)
+        except TypeError:
+            return None
+        return out
 
     def _as_citer(self, x):
         from .stmts import _ConcreteIter
@@ -764,6 +795,12 @@ class CallMixin:
                     return getattr(recv, m)(*args, **kwargs)
                 except Exception:
                     return App(name, [recv] + list(args), kwargs, fname=f"str.{m}")
+            if m == "sort" and isinstance(recv, list) and kwargs.get("key") is not None and not contains_term(recv):
+                ks = self._keyed(list(recv), kwargs["key"], node, fr)
+                if ks is not None:
+                    order = sorted(range(len(ks)), key=lambda i_: ks[i_][0], reverse=bool(kwargs.get("reverse", False)))
+                    recv[:] = [ks[i_][1] for i_ in order]
+                    return None
             if m == "sort" and isinstance(recv, list):
                 if "key" in kwargs or contains_term(recv):
                     keyf = kwargs.get("key")
